@@ -20,6 +20,8 @@ pub fn monitors_for(prop: &str) -> Vec<Box<dyn Monitor>> {
         "C04" => vec![
             Box::new(mon::econ::C04::default()),
             Box::new(Relabel { inner: Box::new(mon::econ2::C11::default()), to: "C04", prefix: "ledger:" }),
+            // ... and the margin + open notional a close cashes out must add up over the position's whole life
+            Box::new(Relabel { inner: Box::new(mon::life::Life::default()), to: "C04", prefix: "" }),
         ],
         "C05" => vec![Box::new(mon::econ::C05::default())],
         "C06" => vec![Box::new(mon::econ::C06::default())],
@@ -40,6 +42,9 @@ pub fn profile_for(prop: &str, tier: &str) -> Profile {
     let mut p = Profile::default();
     if tier == "thorough" {
         p.long_pct = 12;
+    }
+    if prop == "C03" {
+        p.stray_funds_pct = 15;
     }
     if cfg!(miri) {
         // supplementary Miri leg: the interpreter is ~4 orders of magnitude slower, so a history is a dozen
